@@ -462,7 +462,7 @@ fn specs(run: &Run) -> Vec<AssetSpec> {
     v.push(mk("mp4-bmff-merkle-synth", "video/mp4", &format!("synth:mp4:{}", run.seed ^ 77), "bmff-merkle", false, 2));
     v.push(mk("mp4-bmff-update-synth", "video/mp4", &format!("synth:mp4:{}", run.seed ^ 78), "bmff", true, 2));
     // synthesised small assets (every kind the toolkit offers), two seeds each in thorough
-    let seeds: &[u64] = if run.quick() { &[1] } else { &[1, 2, 3, 4] };
+    let seeds: &[u64] = if run.quick() { &[1] } else { &[1, 2] };
     for kind in vh::assets::KINDS {
         for s in seeds {
             let d = vh::assets::synth_default(kind);
@@ -479,7 +479,7 @@ fn specs(run: &Run) -> Vec<AssetSpec> {
 fn mutations_for(p: &Prepared, rng: &mut vh::rng::SplitMix64, payload_samples: usize, every_byte: bool) -> Vec<Mutation> {
     let len = p.bytes.len();
     let mut pos: Vec<usize> = vec![];
-    if every_byte && len <= 20_000 {
+    if every_byte && len <= 8_000 {
         pos.extend(0..len);
     } else {
         for k in 0..24.min(len) {
@@ -520,7 +520,9 @@ fn mutations_for(p: &Prepared, rng: &mut vh::rng::SplitMix64, payload_samples: u
     for q in pos {
         out.push(Mutation::Flip { pos: q, bit: (rng.next_u64() % 8) as u8 });
         let cur = p.bytes[q];
-        out.push(Mutation::Set { pos: q, val: if cur == 0 { 0xFF } else { 0 } });
+        if !every_byte || q % 3 == 0 {
+            out.push(Mutation::Set { pos: q, val: if cur == 0 { 0xFF } else { 0 } });
+        }
         if !every_byte || q % 7 == 0 {
             out.push(Mutation::Insert { pos: q, bytes: vec![rng.next_u64() as u8] });
             out.push(Mutation::Delete { pos: q, len: 1 });
@@ -692,7 +694,7 @@ fn main() {
     let mut rng = vh::rng::SplitMix64::new(run.seed ^ 0xC01);
     for (i, p) in prepared.iter().enumerate() {
         let small = p.bytes.len() <= 20_000;
-        let ms = mutations_for(p, &mut rng, run.scale(if small { 500 } else { 150 }, 1500), !run.quick() && small);
+        let ms = mutations_for(p, &mut rng, run.scale(if small { 500 } else { 150 }, 1500), !run.quick() && p.bytes.len() <= 8_000);
         per_asset.insert(p.spec.label.clone(), ms.len());
         cases.extend(ms.into_iter().map(|m| (i, m)));
     }
